@@ -165,7 +165,15 @@ def check_normalize(run):
         test.dependencies = real
         got, err = [], False
         try:
-            for d in core._normalize_test_dependencies(test, all_tests):
+            gen = core._normalize_test_dependencies(test, all_tests)
+        except TypeError as e:
+            # the private generator has another signature: this differential cannot be run; the composition differential
+            # (check_expand_project, through the public resolve_tests_dependencies) still is
+            run.tie_broken("DepsPred.walk = what _normalize_test_dependencies yields (paths and predicates)",
+                           detail="the generator could not be called as _normalize_test_dependencies(test, all_tests): %s" % e)
+            return
+        try:
+            for d in gen:
                 got.append(d.path)
         except ValidationError as e:
             err = True
@@ -241,6 +249,7 @@ def check_expand_project(run):
         all_tests = flatten_tests_as_dict(suites)
         keys = list(all_tests.keys())
         table = []
+        shared = []                                       # predicate objects used by several tests (needs_init = lcc.depends_on(pred))
         mostly_backward = run.rng.random() < 0.6          # acyclic most of the time: dependencies on earlier tests
         for k, p in enumerate(keys):
             decl, real = [], []
@@ -252,12 +261,20 @@ def check_expand_project(run):
                     decl.append(("path", q)); real.append(q)
                 elif r < 0.40:
                     decl.append(("path", "s1.t1")); real.append("s1.t1")
+                elif shared and run.rng.random() < 0.35:
+                    ext, obj = run.rng.choice(shared)     # the very same predicate object as another test
+                    decl.append(("pred", list(ext))); real.append(obj)
+                    run.count("expand_project_shared_predicate_objects")
                 else:
                     ext = [q for q in pool if run.rng.random() < 0.35]
                     if run.rng.random() < 0.5:
                         ext.append(p)
+                    if run.rng.random() < 0.3 and k + 1 < len(keys):
+                        ext.append(keys[k + 1])           # ... true of a later test too (which may use the same object)
                     run.rng.shuffle(ext)
-                    decl.append(("pred", ext)); real.append(lambda t, ext=frozenset(ext): t.path in ext)
+                    obj = (lambda t, ext=frozenset(ext): t.path in ext)
+                    shared.append((ext, obj))
+                    decl.append(("pred", ext)); real.append(obj)
             all_tests[p].dependencies = real
             if decl:
                 table.append((p, decl))
@@ -272,6 +289,19 @@ def check_expand_project(run):
         run.count("expand_project_outcome:%d" % code)
         if code == 0 and sum(1 for _, d in table for x in d if x[0] == "pred") >= 2:
             run.nontrivial.add("exp%d" % i)
+        # what each test resolved to, against the meaning of its declarations (independent of the model): a path is itself, a
+        # predicate the tests of the project it holds for, the depending test excepted, in project order
+        if code == 0:
+            decl_of = dict(table)
+            for p, got in res:
+                want = []
+                for d in decl_of.get(p, []):
+                    want += [d[1]] if d[0] == "path" else [q for q in keys if q != p and q in d[1]]
+                if got != want:
+                    run.violation("oracle:resolved-dependencies-differ-from-the-declarations",
+                                  "test %s declares %r and resolves to %r instead of %r" % (p, decl_of.get(p, []), got, want),
+                                  {"keys": keys, "declared": table, "test": p, "resolved": got, "expected": want})
+                    break
         # the composition theorem, on what the implementation did: an unknown dependency needs an unknown path in some declaration
         if code == 1 and not any(x[0] == "path" and x[1] not in all_tests for _, d in table for x in d):
             run.violation("oracle:unknown-dependency-without-an-unknown-path", "rejected for an unknown dependency although every "
